@@ -774,7 +774,7 @@ nnls_normal_block3(cholmod_sparse *AtA, cholmod_dense *Atb, int verbose,
         long nFprime, nGprime, nF_, nG_;
         int i, j, k;
         int iter, max_iter, solves, residual_calcs;
-        int feasible;
+        int feasible, exact;
         clock_t t0, t1;
         double kkt_tolerance, y_min, residual;
 
@@ -807,6 +807,8 @@ nnls_normal_block3(cholmod_sparse *AtA, cholmod_dense *Atb, int verbose,
 
         nF = nG = nH1 = nH2 = 0;
         nGprime = -1;
+        /* x = 0 is the exact minimum over the (empty) free set */
+        exact = true;
 
         t0 = clock();
 
@@ -915,10 +917,13 @@ nnls_normal_block3(cholmod_sparse *AtA, cholmod_dense *Atb, int verbose,
                                 y_min = ((double *)(y->x))[H2[i]];
 
                 /*
-                 * If we've satisfied the KKT conditions, we're done. 
+                 * If we've satisfied the KKT conditions, we're done. This
+                 * requires x to be the minimum over the free set: after a
+                 * line search it is only a point part way along the descent,
+                 * and constraints found there may still be waiting in H1.
                  */
 
-                if (nH2 == 0) break;
+                if (nH2 == 0 && nH1 == 0 && exact) break;
 
                 ninf = nH1 + nH2;
 
@@ -1023,6 +1028,7 @@ nnls_normal_block3(cholmod_sparse *AtA, cholmod_dense *Atb, int verbose,
                                             ((double*)(x_F->x))[i];
                                 cholmod_l_free_dense(&x_F, c);
                                 feasible = true;
+                                exact = true;
 
                                 if (verbose)
                                         printf("\tSolution entirely "
@@ -1089,6 +1095,7 @@ nnls_normal_block3(cholmod_sparse *AtA, cholmod_dense *Atb, int verbose,
                                 feasible = walk_descents(AtA_F, Atb_F, x, x_F,
                                     F, &nF, H1, &nH1, &residual,
                                     &residual_calcs, verbose, c);
+                                exact = false;
 
                         } /* if (nF_inf == 0) */
 
